@@ -323,12 +323,10 @@ theorem routedSvcOk_model (s : Svc) (hs : declsWF s.vars) (b : Body) (hb : bodyW
         simp only [Svc.names, List.contains_eq_mem, List.mem_map, decide_eq_true_eq]
         exact ⟨v, hv, rfl⟩
       obtain ⟨h1, h2⟩ := varAfter_spec s.names (names_braceFree s hs) b hb tick v hx
-      simp only [varOk, Bool.and_eq_true, beq_iff_eq, specVar_blank]
-      refine ⟨⟨rfl, by simp only [Function.comp]; rw [h1.1]; rfl⟩, ?_⟩
       have hl := listedOf_contains _ (assigns_nodup s.names (names_braceFree s hs) b hb) tick s.vars hnd v hv
-      show (_, _, (listedOf (assigns s.names b) tick s.vars).contains v.decl.name) = _
-      rw [hl]
-      exact h2
+      have hn1 : (Var.blank v).decl.name = v.decl.name := rfl
+      simp only [varOk, Bool.and_eq_true, Bool.or_eq_true, beq_iff_eq, specVar_blank, hn1, Function.comp, hl, ← h2]
+      exact ⟨⟨⟨⟨trivial, by rw [h1.1]⟩, trivial⟩, trivial⟩, Or.inr trivial⟩
   · simp only [declsOf, List.map_map]
     apply List.map_congr_left
     intro v hv
